@@ -69,3 +69,4 @@ static int spec_find(uint32_t key)
     return r;
 }
 int G_MUX_I, G_MUX0_I;
+uint32_t G_DVB_KEY; _Bool G_DVB_OK; uint8_t G_DVB_VAL; uint32_t G_DVB_WR_N; uint32_t G_HISTADD_N; uint8_t G_HISTADD_ERR; CO_EMCY_USR *G_HISTADD_USR;
